@@ -156,6 +156,36 @@ def impl_style_events(abbr, cfg):
         return classify_exc(e)
 
 
+def impl_events_rewriting(abbr, cfg):
+    """Callbacks that do NOT return what they are given: fields become editor tabstops
+    `${index:placeholder}`, text is HTML-escaped.  The recorded string is the returned one."""
+    from emmet import expand
+    from common import time_limit, Hang
+    uc = copy.deepcopy(cfg)
+    events = []
+
+    def field(index, placeholder, offset=None, line=None, column=None, **kw):
+        ret = '${%d:%s}' % (index, placeholder) if placeholder else '${%d}' % index
+        events.append(('field', index, ret, offset, line, column))
+        return ret
+
+    def text(t, offset=None, line=None, column=None, **kw):
+        ret = t.replace('&', '&amp;').replace('<', '&lt;')
+        events.append(('text', ret, offset, line, column))
+        return ret
+    uc.setdefault('options', {})
+    uc['options'] = dict(uc['options'])
+    uc['options']['output.field'] = field
+    uc['options']['output.text'] = text
+    try:
+        with time_limit(10):
+            return ('ok', expand(abbr, uc), events)
+    except Hang:
+        return ('hang', 10)
+    except Exception as e:  # noqa
+        return classify_exc(e)
+
+
 def style_cases(rng, n):
     out = []
     for _ in range(n):
@@ -308,6 +338,21 @@ def run(ctx):
                 ctx.nontrivial((abbr, canon_cfg(cfg)))
     for (abbr, cfg, meta), r in list(zip(cases, impl))[len(FIXED) + 5:len(FIXED) + 9]:
         ctx.sample({'abbr': abbr, 'config': cfg, 'callbacks': [list(e) for e in r[2][:6]] if r[0] == 'ok' else list(r)})
+    # callbacks that rewrite what they are given (implementation only: the model fixes the identity callbacks)
+    nr = 500 if ctx.tier == 'quick' else 8000
+    for abbr, cfg, meta in cases[:nr]:
+        r = impl_events_rewriting(abbr, cfg)
+        ctx.count_eval()
+        ctx.cover('C13:rewriting-callbacks-%s' % r[0])
+        bad = None
+        if r[0] == 'hang':
+            bad = 'expand did not return within %s s' % r[1]
+        elif r[0] == 'ok':
+            bad = fu.positions_check(r[1], r[2], fu.resolved_options(cfg)['output.newline'])
+        if bad:
+            ctx.property_failure('C13:rewriting|%s|%s' % (abbr, canon_cfg(cfg)),
+                                 'C13 expand(%r, %s) with rewriting callbacks: %s' % (abbr, canon_cfg(cfg), bad),
+                                 {'component': 'C13-rewriting', 'abbr': abbr, 'config': cfg, 'why': bad})
     # stylesheet syntaxes
     ns = 800 if ctx.tier == 'quick' else 15000
     for abbr, cfg in style_cases(rng, ns):
@@ -335,7 +380,11 @@ def replay(ctx, obj):
     if 'abbr' not in rp:
         print('replay names a broken obligation, no input: %s' % str(rp)[:300])
         return 1
-    if rp.get('component') == 'C13-style':
+    if rp.get('component') == 'C13-rewriting':
+        r = impl_events_rewriting(rp['abbr'], rp['config'])
+        bad = fu.positions_check(r[1], r[2], fu.resolved_options(rp['config'])['output.newline']) if r[0] == 'ok' else \
+            ('hang' if r[0] == 'hang' else None)
+    elif rp.get('component') == 'C13-style':
         r = impl_style_events(rp['abbr'], rp['config'])
         bad = fu.positions_check(r[1], r[2], fu.resolved_options(rp['config'])['output.newline']) if r[0] == 'ok' else None
     else:
